@@ -21,6 +21,8 @@ thread_local! { static CALLER: Cell<u64> = const { Cell::new(0) }; }
 #[derive(Default)]
 struct Gate {
     hold: bool,
+    /// the daemon thread runs freely from now on while shutdown callers stay parked at `s.after_flag`
+    d_released: bool,
     /// the daemon thread is not stepped (flood scenario): its hold points neither stop it nor are they logged
     free_d: bool,
     held_d: Option<String>,
@@ -62,6 +64,9 @@ impl Ctl {
             g.arrivals_d += 1;
             return;
         }
+        if g.d_released {
+            return;
+        }
         drop(g);
         self.log.push(json!({"ev": "hook", "p": point, "caller": 0, "ok": args.first().copied().unwrap_or(0)}));
         let mut g = self.g.lock().unwrap();
@@ -72,7 +77,7 @@ impl Ctl {
         g.arrivals_d += 1;
         let ticket = g.release_d;
         self.cv.notify_all();
-        while g.hold && g.release_d == ticket {
+        while g.hold && !g.d_released && g.release_d == ticket {
             g = self.cv.wait(g).unwrap();
         }
         g.held_d = None;
@@ -297,8 +302,12 @@ pub fn run_case(case: &Value, trace: &mut Trace) {
     let wait_first = case["wait_first"].as_bool().unwrap_or(false);
     let (tx, rx) = std::sync::mpsc::channel();
     let mut daemon_opt = Some(daemon);
-    let spawn_waiter = |mut daemon: VhostUserDaemon<Arc<TB<VringRwLock<GM>>>>, tx: std::sync::mpsc::Sender<String>| {
+    let waiter_tid = Arc::new(std::sync::atomic::AtomicI32::new(0));
+    let wt2 = waiter_tid.clone();
+    let spawn_waiter = move |mut daemon: VhostUserDaemon<Arc<TB<VringRwLock<GM>>>>, tx: std::sync::mpsc::Sender<String>| {
+        let wt3 = wt2.clone();
         std::thread::spawn(move || {
+            wt3.store(gettid(), std::sync::atomic::Ordering::SeqCst);
             let r = daemon.wait();
             let s = match &r {
                 Ok(()) => "Ok".to_string(),
@@ -373,10 +382,20 @@ pub fn run_case(case: &Value, trace: &mut Trace) {
         ctl.settle(quiet);
         log.push(json!({"ev": "cmd", "c": c, "a": a, "done": done}));
     }
-    // run to completion
+    // run to completion.  If some caller has completed its shutdown request while others are still parked between their two
+    // steps, wait() must return *now* -- one completed request is enough, the parked callers owe nothing: the daemon thread
+    // is let go, wait() runs under its watchdog, and only then are the parked callers released.
+    let shut_done: Vec<u64> = case["sched"].as_array().unwrap().iter().filter(|c| c[0] == "shut").map(|c| c[1].as_u64().unwrap_or(0)).collect();
+    let stored: Vec<u64> = case["sched"].as_array().unwrap().iter().filter(|c| c[0] == "store").map(|c| c[1].as_u64().unwrap_or(0)).collect();
+    let parked = stored.iter().any(|c| !shut_done.contains(c));
+    let early_wait = !shut_done.is_empty() && parked;
     {
         let mut g = ctl.g.lock().unwrap();
-        g.hold = false;
+        if early_wait {
+            g.d_released = true;
+        } else {
+            g.hold = false;
+        }
         g.release_d += 1;
         ctl.cv.notify_all();
     }
@@ -385,6 +404,26 @@ pub fn run_case(case: &Value, trace: &mut Trace) {
         m.lock().unwrap().1 = true;
         cv.notify_all();
     }
+    // "wait() does not return": the 10 s watchdog has expired and both the waiting thread and the daemon thread are seen asleep
+    // in a blocking call (or the daemon thread spins): a slow machine only prolongs the wait
+    let wait_tids = || {
+        let mut v = tids_named("vh-daemon");
+        v.push(waiter_tid.load(std::sync::atomic::Ordering::SeqCst));
+        v
+    };
+    let wait_result = |rx: &std::sync::mpsc::Receiver<String>| -> String {
+        recv_or_blocked(rx, Duration::from_secs(10), Duration::from_secs(120), &wait_tids, &[]).unwrap_or_else(|| "hang".to_string())
+    };
+    let mut early_res: Option<String> = None;
+    if early_wait {
+        if waiter.is_none() {
+            waiter = Some(spawn_waiter(daemon_opt.take().unwrap(), tx.clone()));
+        }
+        early_res = Some(wait_result(&rx));
+        let mut g = ctl.g.lock().unwrap();
+        g.hold = false;
+        ctl.cv.notify_all();
+    }
     for t in caller_threads {
         let _ = t.join();
     }
@@ -392,7 +431,16 @@ pub fn run_case(case: &Value, trace: &mut Trace) {
         waiter = Some(spawn_waiter(daemon_opt.take().unwrap(), tx.clone()));
     }
     let waiter = waiter.unwrap();
-    let wait_res = rx.recv_timeout(Duration::from_secs(10)).unwrap_or_else(|_| "hang".to_string());
+    let wait_res = match early_res {
+        Some(r) if r != "hang" => r,
+        Some(_) => {
+            // it did not return while callers were parked; does it now?  (recorded as a hang either way: the verdict is about
+            // the moment one request had completed)
+            let _ = rx.recv_timeout(Duration::from_secs(10));
+            "hang".to_string()
+        }
+        None => wait_result(&rx),
+    };
     // what does the peer see?
     let mut peer_eof = "closed_by_peer".to_string();
     if let Some(p) = peer_opt.as_ref() {
